@@ -92,7 +92,7 @@ func ruleNibbles(c *Ctx, r *Report, rule string) {
 			return true
 		}
 		if call, ok := as.Rhs[0].(*ast.CallExpr); ok {
-			if id, ok := call.Fun.(*ast.Ident); ok && id.Name == "readByte" && vm.Closures["readByte"] != nil {
+			if vm.callRole(c, call) == "readByte" {
 				byteObj = c.objOf(as.Lhs[0])
 			}
 			if tv, ok := c.infoFor(call).Types[call.Fun]; ok && tv.IsType() && len(call.Args) == 1 {
@@ -143,7 +143,7 @@ func (c *Ctx) bindParts(vm *vmModel) (*bindParts, string) {
 					rhs = ta.X
 				}
 				if call, ok := stripParens(rhs).(*ast.CallExpr); ok {
-					if id, ok := call.Fun.(*ast.Ident); ok && id.Name == "readConst" {
+					if vm.callRole(c, call) == "readConst" {
 						bp.typeVar = obj
 					}
 					// candidates := helper(vm.result, blockType): look for the filter inside the helper
